@@ -456,6 +456,26 @@ def check_project(job):
     if bsfiles is not None:
         v += check_buildsystem_files(bdir, src, bsfiles)
         st['cases'] += 1
+    # non-initial state: the same questions about a build directory that was configured before (plain reconfigure, then
+    # a reconfigure that changes nothing but is given an option)
+    if kind in ('rich', 'gen'):
+        for extra in ((), ('-Dwarning_level=0',)):
+            r2 = mp.run_meson(['setup', '--reconfigure', bdir, src] + list(extra), root, timeout=90)
+            if r2.rc != 0:
+                v.append(('C15:reconfigure-fails', 'setup --reconfigure %s fails: %s' % (' '.join(extra), r2.out[-300:])))
+                break
+            tag = ' [after setup --reconfigure %s]' % ' '.join(extra)
+            try:
+                mf = rn.parse_file(os.path.join(bdir, 'build.ninja'))
+                vv, s2 = check_targets(bdir, src, mf, '--unity=on' in args)
+                v += [(k, w + tag) for k, w in vv]
+                st['cases'] += s2['targets']
+            except (rn.NinjaError, OSError) as e:
+                v.append(('C15:manifest-unreadable', str(e) + tag))
+            if bsfiles is not None:
+                v += [(k, w + tag) for k, w in check_buildsystem_files(bdir, src, bsfiles)]
+                st['cases'] += 1
+            st['reconfigured'] = st.get('reconfigured', 0) + 1
     shutil.rmtree(root, ignore_errors=True)
     return (kind, name, v, st)
 
